@@ -7,7 +7,7 @@ import random
 import string
 
 from . import tlc, decio
-from .core import Outcome, ensure_repo_on_path, finish, pmap, Machinery
+from .core import Outcome, ensure_repo_on_path, finish, pmap, Machinery, chunked
 
 PROP = "C06"
 WORDCH = string.ascii_letters + string.digits + "_"
@@ -154,6 +154,7 @@ def make_cases(rng, deep):
     return cases
 
 
+@chunked()
 def judge(cases, wd, o, what):
     tf = wd / f"trace_{len(list(wd.glob('trace_*.json')))}.json"
     keep = ("listed", "aliases", "alias_model", "word", "nparams", "context", "obs")
